@@ -23,7 +23,7 @@ func main() {
 	kit.Main(kit.Prop{
 		ID:    "C03",
 		Level: "exploration",
-		Rule: "each case is a PRNG-drawn assembly (memory hierarchies with caches/ROB/ideal/banked/DRAM, 1-3 drivers, interleaved modules) executed in several fresh OS processes " +
+		Rule: "each case is a PRNG-drawn assembly (memory hierarchies with caches/ROB/ideal/banked/DRAM, 1-3 drivers, interleaved modules; translation stacks with TLBs/MMU cache/GMMU/MMU, several processes sharing virtual addresses) executed in several fresh OS processes " +
 			"(Go randomises map iteration per process and per range statement); the running hash of the BeforeEvent trace, the running hash of every port event with full message metadata (IDs included), " +
 			"every entity's final checkpoint payload, end time and ID counter must coincide across executions. Non-trivial: the run handled >= 1000 events and has a cache or several memory modules; distinct by configuration",
 		Assumptions: []string{"nondeterminism that needs a different binary, GC timing or wall-clock dependence not reachable in a few executions is out of reach"},
@@ -48,8 +48,16 @@ func run(b kit.Batch, r *kit.R) {
 	var p params
 	b.P(&p)
 	r.ForEach(b.N, func(c *kit.Case) {
+		if c.Rng.Intn(3) == 0 {
+			cfg := sim.RandomVMCfg(c.Rng, p.NumReqs)
+			c.Desc(cfg)
+			r.Count("assemblies/translation-stack", 1)
+			Compare(c, "vm", cfg, p)
+			return
+		}
 		cfg := sim.RandomStackCfg(c.Rng, sim.GenOpts{NumReqs: p.NumReqs, AllowDRAM: true, AllowBanked: true, MaxDrivers: 3})
 		c.Desc(cfg)
+		r.Count("assemblies/memory-hierarchy", 1)
 		Compare(c, "stack", cfg, p)
 	})
 }
@@ -95,7 +103,7 @@ func Compare(c *kit.Case, kind string, cfg any, p params) {
 		}
 	}
 	if first.Events >= 1000 && (strings.Contains(string(cfgJSON), `"kind":"w`) || strings.Contains(string(cfgJSON), `"count":2`) ||
-		strings.Contains(string(cfgJSON), `"count":3`) || strings.Contains(string(cfgJSON), `"count":4`)) {
+		strings.Contains(string(cfgJSON), `"count":3`) || strings.Contains(string(cfgJSON), `"count":4`) || kind == "vm") {
 		c.Nontrivial(string(cfgJSON))
 	}
 	c.Sample(map[string]any{"cfg": cfg, "events": first.Events, "trace_hash": first.TraceHash, "msg_hash": first.Extra["msg_hash"], "executions": p.Procs})
